@@ -817,4 +817,4 @@ pub fn run(rep: &Report) {
     rep.floor("diagnostics checked on the binary", rep.counter("diagnostics checked on the binary") + rep.counter("semantic diagnostics checked on the binary"), 400);
 }
 
-pub const RULE: &str = "(a) programs rendered with known positions (random case/radix/whitespace, blank lines, comment lines and trailing comments, several instructions per line, with/without final newline, LF or CR LF line ends): for every emitted instruction the source-map offset must lie on the generator-known line (the macro use line for macro-generated instructions incl. nested macros, the closing brace for an implied ret); (b) the same kind of program run through the binary (plain and -i): every 'Output of line', 'Int 3 at line', 'About to execute line', divide-error (direct, in a macro, in a procedure) and unsupported-AH message, located between hook records, located by position relative to hook records and prompt markers (never by wording), must contain the line number of the instruction whose record precedes it as an integer token before the quoted text, and the comment-stripped trimmed text of that line; (c) single-token corruptions (unexpected token / invalid character incl. non-ASCII) at first, last and random token positions of random programs, and 13 kinds of semantic defects at known lines (middle, last line with and without newline): the diagnostic's position (in process) must be on the token's line, and the binary's diagnostic must contain line number, column (0- or 1-based) and line text. Wording is never compared. Distinct = (message/diagnostic kind, origin, layout class, position class). Programs switch the trap flag on and off by themselves (stepping is taken from the TF bit of each hook record); scale variants: 260..65600 filler lines in front, indentation beyond column 255, more than 65536 instructions before the first message.";
+pub const RULE: &str = "(a) programs rendered with known positions (random case/radix/whitespace, blank lines, comment lines and trailing comments, several instructions per line, with/without final newline, LF or CR LF line ends): for every emitted instruction the source-map offset must lie on the generator-known line (the macro use line for macro-generated instructions incl. nested macros, the closing brace for an implied ret); (b) the same kind of program run through the binary (plain and -i): every 'Output of line', 'Int 3 at line', 'About to execute line', divide-error (direct, in a macro, in a procedure) and unsupported-AH message, located between hook records, located by position relative to hook records and prompt markers (never by wording), must contain the line number of the instruction whose record precedes it as an integer token before the quoted text, and the comment-stripped trimmed text of that line; (c) single-token corruptions (unexpected token / invalid character incl. non-ASCII) at first, last and random token positions of random programs, and 13 kinds of semantic defects at known lines (middle, last line with and without newline): the diagnostic's position (in process) must be on the token's line, and the binary's diagnostic must contain line number, column (0- or 1-based) and line text. Wording is never compared. Distinct = (message/diagnostic kind, origin, layout class, position class). Programs switch the trap flag on and off by themselves (stepping is taken from the TF bit of each hook record); scale variants: 260..65600 filler lines in front, indentation beyond column 255, more than 65536 instructions before the first message. Columns of semantic diagnostics (constant-range defects in three radices with varied spacing); a macro that substitutes a long memory argument 48 times in front of a nested use; (d) continued contexts: after 0-2 refused texts (six kinds, three inside expansions) on the same context, the instructions and the forward reference of the next text must map to their own lines.";
